@@ -246,3 +246,128 @@ SPECS["C19"] = CheckSpec(
     technique="exhaustive input enumeration on the real code against the platform parser (INX)",
     design_ref="DESIGN.md §3 C19", engine="INX",
 )
+
+
+# --------------------------------------------------------------------------- ENVX (b): conversations with the real FSM
+ENVX_BUILD = dict(flavour="asan", name="envx", harness_srcs=["envx.c"],
+                  exclude_lib=["rtrlib/pfx/trie/trie-pfx.c", "rtrlib/spki/hashtable/ht-spkitable.c"],
+                  extra_ldflags=["-Wl,--wrap=lrtr_get_monotonic_time,--wrap=sleep,--wrap=lrtr_dbg"])
+
+ENVX_NOTE = ("Real rtr_fsm_start thread (created by the real rtr_start), real rtr_sync / rtr_wait_for_sync and real tables; "
+             "the transport is a function-pointer fake, the clock and sleep() are replaced at link time (--wrap). The "
+             "simulated cache and the monitors are written from RFC 8210, independent of packets.c. State key = socket "
+             "fields, canonical dumps of both tables, transport state, cache model, monitor state, normalised clock.")
+
+
+def _ej(prop, depth, refresh=3, retry=2, expire=600, cache_ver=1, extra=()):
+    args = ["--prop=" + prop, "--max-depth=%d" % depth, "--refresh=%d" % refresh, "--retry=%d" % retry,
+            "--expire=%d" % expire, "--cache-ver=%d" % cache_ver] + list(extra)
+    return Job("envx", ENVX_BUILD, args, "conversations depth<=%d iv=%d/%d/%d cache-v%d %s"
+               % (depth, refresh, retry, expire, cache_ver, " ".join(extra)))
+
+
+def c05_jobs(tier, repo):
+    d = 9 if tier == "quick" else 13
+    return [_ej("C05", d, 3, 2, 600, 1), _ej("C05", d, 1, 1, 600, 1), _ej("C05", d, 3, 2, 600, 0),
+            _ej("C05", d + 2, 3, 2, 8, 1), _ej("C05", d + 2, 2, 1, 5, 0)]
+
+
+def c07_jobs(tier, repo):
+    d = 12 if tier == "quick" else 16
+    return [_ej("C07", d, 1, 1, 600, 1), _ej("C07", d, 3, 2, 600, 1), _ej("C07", d, 700, 1, 600, 1),
+            _ej("C07", d, 3, 2, 600, 0), _ej("C07", d, 3, 2, 8, 1), _ej("C07", d, 2, 1, 5, 0)]
+
+
+def c08_jobs(tier, repo):
+    d = 8 if tier == "quick" else 10
+    return [_ej("C08", d, 3, 2, 600, 1), _ej("C08", d, 1, 1, 600, 1), _ej("C08", d, 3, 2, 600, 0),
+            _ej("C08", d, 3, 2, 8, 1)]
+
+
+def c13_jobs(tier, repo):
+    d = 10 if tier == "quick" else 14
+    return [_ej("C13", d, 3, 2, 600, 1), _ej("C13", d, 3, 2, 600, 0), _ej("C13", d, 1, 1, 600, 1)]
+
+
+_ENVX_ASSUME = ["the response menu (see rule) is the fault alphabet; faults outside it are not enumerated",
+                "conversations are explored to the stated depth of choice points (open, answer to a query, event while "
+                "waiting in ESTABLISHED, stop request); 'compressed time' jobs shrink expire_interval below the "
+                "configurable minimum by writing the socket field, relying on the engine only comparing it with the clock",
+                "at most two data publications and one stop/start per conversation"]
+
+SPECS["C05"] = CheckSpec(
+    "C05", c05_jobs,
+    rule="explicit-state BFS over conversations: every choice point (transport open {ok, fails after > expire}, answer "
+         "to each query from {correct, correct with new data, Cache Reset, Error no-data, Error internal, Cache Response "
+         "with foreign session, End of Data with foreign session, both foreign, timeout, close, transport error, cache "
+         "restart with new session}, event while ESTABLISHED {refresh timeout, stop/start, Serial Notify}) is a BFS "
+         "level; serials start at 2^32-2 so that they wrap; a monitor (have, session, serial) driven only by completed "
+         "exchanges checks every query seen at the transport and that foreign-session responses never end in "
+         "ESTABLISHED; states are deduplicated by the canonical state key; non-trivial = distinct states",
+    assumptions=_ENVX_ASSUME,
+    counters_map={"distinct": ["states"]},
+    level_text="Explicit-state model checking of the real protocol engine against a session/serial monitor: all "
+               "conversations over the response menu up to the stated depth, with state deduplication. The property is "
+               "a safety property of conversation histories, which is what reachability over (engine state x monitor "
+               "state) decides; a test fixes one conversation.",
+    level_note=ENVX_NOTE,
+    technique="explicit-state BFS over environment answers driving the real FSM thread, monitor automaton as oracle (ENVX-b)",
+    design_ref="DESIGN.md §3 C05, §2.5 ENVX", engine="ENVX",
+)
+
+SPECS["C07"] = CheckSpec(
+    "C07", c07_jobs,
+    rule="explicit-state BFS over conversations with clock events: answers {correct, new data, Cache Reset, no-data, "
+         "reload/delta cut after the first payload PDU then timeout / transport error, duplicate announcement, timeout}, "
+         "transport open {ok, fails, fails after more than the expire interval}, events while ESTABLISHED {refresh, "
+         "stop/start, transport error}, stop requests during retry sleeps; interval settings (1,1,600) (3,2,600) "
+         "(700,1,600) and compressed-time (3,2,8) (2,1,5); the monitor keeps its own time of the last completed "
+         "exchange and checks at every open() that expired data are gone and the first query is a Reset Query, that "
+         "nothing of the socket remains after the real rtr_stop returned, and that another source's records are intact",
+    assumptions=_ENVX_ASSUME,
+    counters_map={"distinct": ["states"]},
+    level_text="Explicit-state model checking of the real FSM with the simulated clock as part of the state: every "
+               "conversation up to the depth bound, including reloads interrupted half-way followed by unreachability "
+               "longer than the expire interval, and real rtr_stop (pthread_cancel/join) at the cancellation points.",
+    level_note=ENVX_NOTE + " Stop requests are delivered only where cancellation is enabled (the only places a real "
+                           "pthread_cancel can take effect).",
+    technique="explicit-state BFS over environment answers and clock events on the real FSM thread (ENVX-b)",
+    design_ref="DESIGN.md §3 C07", engine="ENVX",
+)
+
+SPECS["C08"] = CheckSpec(
+    "C08", c08_jobs,
+    rule="explicit-state BFS over fault conversations (15 answers incl. send failure, foreign session, cut response, "
+         "duplicate / unknown withdrawal, malformed PDU, cache restart; open fails / fails slowly; Serial Notify, "
+         "transport error, silent publication while ESTABLISHED); from EVERY distinct reachable state a second "
+         "execution replays the history and then lets cache and transport behave: the client must reach ESTABLISHED "
+         "with exactly the cache's current data within refresh+expire+4*retry of simulated time, and no execution may "
+         "make 400 environment calls without consuming input, sending, or letting time advance",
+    assumptions=_ENVX_ASSUME + ["bounded liveness from every reachable state under a finite menu, not LTL over "
+                                "arbitrary environments"],
+    counters_map={"distinct": ["states"]},
+    level_text="Explicit-state model checking of re-convergence: the reachable states under all fault histories up to "
+               "the depth bound are enumerated, and the default continuation is executed from each of them with a "
+               "protocol-time bound; livelock is detected by a no-progress monitor on environment calls.",
+    level_note=ENVX_NOTE,
+    technique="explicit-state BFS over fault histories + default-continuation run from every reachable state (ENVX-b)",
+    design_ref="DESIGN.md §3 C08", engine="ENVX",
+)
+
+SPECS["C13"] = CheckSpec(
+    "C13", c13_jobs,
+    rule="explicit-state BFS over conversations in which PDUs carry version bytes 0/1/2: answers {correct in the "
+         "cache's version, new data, Unsupported-Version report carrying a lower / the same / a higher version, close "
+         "without answer, answer in version 0, one PDU with another version inside a response, End of Data in the other "
+         "version's format, answer in version 2, timeout} against caches speaking version 1 and version 0; a model "
+         "variable v (starts at 1, lowered only by the three rules of the statement) must equal the version byte of "
+         "every PDU sent; refused PDUs must be answered with error code 8 before the next query, must not end in "
+         "ESTABLISHED and must not change the records; rule (ii) must reconnect without sleeping",
+    assumptions=_ENVX_ASSUME,
+    counters_map={"distinct": ["states"]},
+    level_text="Explicit-state model checking of version negotiation on the real engine against a three-rule model of "
+               "the negotiated version, over all conversations up to the depth bound and both cache versions.",
+    level_note=ENVX_NOTE,
+    technique="explicit-state BFS over environment answers with a version-model monitor (ENVX-b)",
+    design_ref="DESIGN.md §3 C13", engine="ENVX",
+)
